@@ -7,7 +7,12 @@ pub mod runtime {
 pub mod task {
     use std::future::Future;
 
+    #[cfg(not(remoc_verif))]
     pub use tokio::task::{JoinError, JoinHandle, spawn, spawn_blocking};
+    #[cfg(remoc_verif)]
+    pub use tokio::task::{JoinError, JoinHandle, spawn_blocking};
+    #[cfg(remoc_verif)]
+    pub use crate::verif::spawn;
 
     /// Runs a future to completion.
     #[track_caller]
